@@ -143,6 +143,20 @@ class Processor(ABC):
         """  # noqa: D401
         raise NotImplementedError()
 
+    @staticmethod
+    def _unwrap_markers(relation: Relation) -> Relation:
+        """Look through engine-specific markers that never hold a payload
+        themselves (e.g. the SQL engine's ``Select``) to the relation they
+        wrap.
+        """
+        while (
+            relation.payload is None
+            and isinstance(relation, MarkerRelation)
+            and not isinstance(relation, (Transfer, Materialization))
+        ):
+            relation = relation.target
+        return relation
+
     def _process_recursive(self, original: Relation, materialize_as: str | None) -> tuple[Relation, bool]:
         """Recursive implementation for `process`.
 
@@ -204,16 +218,16 @@ class Processor(ABC):
                 new_target, persisted = self._process_recursive(target, materialize_as=name)
                 if new_target is not target:
                     result = new_target.materialized(name=name)
-                    if result.payload is not None:
+                    if (simplified_payload := self._unwrap_markers(result).payload) is not None:
                         # This operation has been simplified away
                         # (perhaps it's now a materialization of a
                         # leaf).
-                        original.attach_payload(result.payload)
+                        original.attach_payload(simplified_payload)
                         return result, True
                 else:
                     result = original
                 if persisted:
-                    payload = new_target.payload
+                    payload = self._unwrap_markers(new_target).payload
                 elif original.is_join_identity:
                     payload = target.engine.get_join_identity_payload()
                 elif original.max_rows == 0:
@@ -225,7 +239,7 @@ class Processor(ABC):
                 # original relation tree is processed.
                 original.attach_payload(payload)
                 if result is not original:
-                    result.attach_payload(payload)
+                    self._unwrap_markers(result).attach_payload(payload)
                 return result, True
             case MarkerRelation(target=target):
                 new_target, persisted = self._process_recursive(target, materialize_as=materialize_as)
